@@ -25,6 +25,9 @@ func NewStructProtoFunc() erpc.ProtoFunc {
 		p.tProtocol = thrift.NewTHeaderProtocol(&BaseTTransport{
 			ReadWriteCounter: p.rwCounter,
 		})
+		p.rProtocol = thrift.NewTHeaderProtocol(&BaseTTransport{
+			ReadWriteCounter: p.rwCounter,
+		})
 		return p
 	}
 }
@@ -49,7 +52,7 @@ func (t *tStructProto) Pack(m erpc.Message) error {
 func (t *tStructProto) Unpack(m erpc.Message) error {
 	err := t.structUnpack(m)
 	if err != nil {
-		t.tProtocol.Transport().Close()
+		t.rProtocol.Transport().Close()
 	}
 	return err
 }
@@ -99,7 +102,7 @@ func (t *tStructProto) structUnpack(m erpc.Message) error {
 	t.unpackLock.Lock()
 	defer t.unpackLock.Unlock()
 	t.rwCounter.ReadCounter.Zero()
-	err := readMessageBegin(t.tProtocol, m)
+	err := readMessageBegin(t.rProtocol, m)
 	if err != nil {
 		return err
 	}
@@ -109,15 +112,15 @@ func (t *tStructProto) structUnpack(m erpc.Message) error {
 	if !ok {
 		return fmt.Errorf("thrift codec: %T does not implement thrift.TStruct", m.Body())
 	}
-	if err = s.Read(t.tProtocol); err != nil {
+	if err = s.Read(t.rProtocol); err != nil {
 		return err
 	}
 
-	if err = t.tProtocol.ReadMessageEnd(); err != nil {
+	if err = t.rProtocol.ReadMessageEnd(); err != nil {
 		return err
 	}
 
-	headers := t.tProtocol.GetReadHeaders()
+	headers := t.rProtocol.GetReadHeaders()
 	m.Status(true).DecodeQuery(goutil.StringToBytes(headers[HeaderStatus]))
 	m.Meta().Parse(headers[HeaderMeta])
 
